@@ -122,7 +122,14 @@ func (in *Interp) schedule(why string) {
 					curRunnable = true
 				}
 			}
-			if curRunnable && in.cfg.PreemptBound >= 0 && in.preemptions >= in.cfg.PreemptBound {
+			if in.cfg.SchedFIFO {
+				// one fixed fair schedule: run to block, then the oldest runnable goroutine
+				if curRunnable {
+					next = cur
+				} else {
+					next = rs[0]
+				}
+			} else if curRunnable && in.cfg.PreemptBound >= 0 && in.preemptions >= in.cfg.PreemptBound {
 				next = cur
 			} else {
 				alts := make([]*Term, len(rs))
@@ -289,7 +296,7 @@ func (in *Interp) goroutineExit() {
 			return
 		}
 		k := 0
-		if len(rs) > 1 {
+		if len(rs) > 1 && !in.cfg.SchedFIFO {
 			alts := make([]*Term, len(rs))
 			labels := make([]string, len(rs))
 			for i, g := range rs {
